@@ -81,7 +81,7 @@ func keyshareResponseGuards(P *Program, R *Report) {
 		return false
 	}})
 	if cmp != nil {
-		R.decide(rule, kKSResponse+":constant-time", "the comparison is constant-time", calleeName(cmp) == "crypto/subtle.ConstantTimeCompare", calleeName(cmp), P.Pos(cmp.Pos()))
+		R.decide(rule, kKSResponse+":constant-time", "the comparison is constant-time", calleeIs(cmp, "crypto/subtle.ConstantTimeCompare"), calleeName(cmp), P.Pos(cmp.Pos()))
 	}
 	// the response computation happens only after the comparison
 	n := 0
